@@ -757,48 +757,409 @@ func repairAsyncGeneratorReturn(out string, po *jsref.Program) (string, int) {
 	return out, n
 }
 
+// ---- C05-objrest-nullish-or-order, the "nullish" part (output repair)
+// Signature (input): hasComplexObjectRest. Native destructuring throws a TypeError when the value that an
+// object pattern is applied to is null or undefined; the helper __objRest tolerates both. Repair: the
+// helper throws a TypeError for a nullish source. (The "order" part of the finding keeps its static
+// signature in judgeDepth.)
+func complexObjectRest(pi *jsref.Program) bool { return hasComplexObjectRest(pi.Source) }
+
+// objRestHelper finds the arrow function that esbuild's runtime assigns to `__objRest`.
+func objRestHelper(po *jsref.Program) *jsref.Node {
+	var found *jsref.Node
+	for _, st := range po.Body.List {
+		if st == nil || st.Type != jsref.NVarDecl {
+			continue
+		}
+		for _, d := range st.List {
+			if d == nil || d.Type != jsref.NDeclarator || d.A == nil || d.A.Type != jsref.NIdent || d.A.Name != "__objRest" || found != nil {
+				continue
+			}
+			if f := d.B; f != nil && f.Type == jsref.NArrow && len(f.List) == 2 && f.List[0] != nil && f.List[0].Type == jsref.NIdent && f.B != nil && f.B.Type == jsref.NBlock {
+				found = f
+			}
+		}
+	}
+	return found
+}
+
+func repairObjRestNullish(out string, po *jsref.Program) (string, int) {
+	f := objRestHelper(po)
+	if f == nil || strings.Contains(out, "rest of null or undefined") {
+		return out, 0
+	}
+	res, ok := applyEdits(out, []edit{{at: f.B.Start + 1, ins: " if (" + f.List[0].Name + " == null) throw new TypeError(\"rest of null or undefined\"); "}})
+	if !ok {
+		return out, 0
+	}
+	return res, 1
+}
+
+// ---- C05-object-rest-own-proto-key-sets-prototype (output repair)
+// Signature (input): the program text mentions `__proto__`. The helper __objRest copies the remaining
+// properties with `target[prop] = source[prop]`; for an own property named "__proto__" of the source
+// (a JSON.parse result, a computed or accessor / method key) that assignment calls the inherited
+// Object.prototype.__proto__ setter: the rest object gets the value as its PROTOTYPE (or nothing happens for
+// a primitive) and has no own "__proto__" property. Native rest (CopyDataProperties) defines an own data
+// property. Repair: the helper defines the property (Object.defineProperty), as __spreadValues does.
+func mentionsProto(pi *jsref.Program) bool { return strings.Contains(pi.Source, "__proto__") }
+
+func repairObjRestDefine(out string, po *jsref.Program) (string, int) {
+	f := objRestHelper(po)
+	if f == nil {
+		return out, 0
+	}
+	var edits []edit
+	jsutil.Walk(f.B, func(n *jsref.Node) {
+		if n.Type != jsref.NAssign || n.Name != "=" || n.A == nil || n.B == nil || n.A.Type != jsref.NIndex || n.B.Type != jsref.NIndex {
+			return
+		}
+		t, k, src, k2 := n.A.A, n.A.B, n.B.A, n.B.B
+		if t == nil || k == nil || src == nil || k2 == nil || t.Type != jsref.NIdent || k.Type != jsref.NIdent || src.Type != jsref.NIdent || k2.Type != jsref.NIdent || k.Name != k2.Name || src.Name != f.List[0].Name {
+			return
+		}
+		edits = append(edits, edit{at: n.Start, del: n.End - n.Start, ins: "Object.defineProperty(" + t.Name + ", " + k.Name + ", { value: " + src.Name + "[" + k.Name + "], writable: true, enumerable: true, configurable: true })"})
+	})
+	if len(edits) == 0 {
+		return out, 0
+	}
+	res, ok := applyEdits(out, edits)
+	if !ok {
+		return out, 0
+	}
+	return res, len(edits)
+}
+
+// ---- C05-top-level-object-rest-temporary-name-collision (confirmed by transforming again)
+// The temporaries that a lowered object-rest DECLARATION introduces in the declaration itself
+// (`var _a = src, { x } = _a, r = __objRest(_a, ["x"])`, `for (let _a of xs) { let _b = _a, … }`,
+// `catch (_a) { let _b = _a, … }`) are not recorded as declared symbols; at the top level of a file the
+// renamer therefore never sees them and they are printed under their raw names `_a`, `_b`, … even when the
+// program has a variable of that name or esbuild itself declares another top-level temporary `_a` (the
+// cache of a lowered tagged template, `var _a; … T(_a || (_a = __template(…)))`). Only without
+// identifier minification (the minifying renamer walks the scopes' generated symbols).
+// Signature: object rest is lowered, identifiers are not minified, and the output binds — outside any
+// function — a name `_x` that is also the initialiser of a declarator (`= _x`, the shape of a rest
+// temporary) and that is bound a second time outside functions or occurs as an identifier in the input.
+// Confirmation: the same case transformed with MinifyIdentifiers (whose renamer knows every generated
+// symbol) behaves like the original.
+func bindingNames(n *jsref.Node, fn func(name string)) {
+	if n == nil {
+		return
+	}
+	switch n.Type {
+	case jsref.NIdent:
+		fn(n.Name)
+	case jsref.NAssign, jsref.NSpread, jsref.NParen:
+		bindingNames(n.A, fn)
+	case jsref.NArray:
+		for _, c := range n.List {
+			bindingNames(c, fn)
+		}
+	case jsref.NObject:
+		for _, c := range n.List {
+			if c == nil {
+				continue
+			}
+			if c.Type == jsref.NProperty {
+				if c.B != nil {
+					bindingNames(c.B, fn)
+				} else {
+					bindingNames(c.A, fn)
+				}
+			} else {
+				bindingNames(c, fn)
+			}
+		}
+	}
+}
+
+func isRawTemporaryName(s string) bool {
+	if len(s) < 2 || s[0] != '_' {
+		return false
+	}
+	for _, r := range s[1:] {
+		if r < 'a' || r > 'z' {
+			return false
+		}
+	}
+	return true
+}
+
+func topLevelRestTemporaryCollision(c Case, out string, refTrace string) string {
+	const id = "C05-top-level-object-rest-temporary-name-collision"
+	if c.Minify || !c.lowers("object-rest-spread", 2018) || !strings.Contains(out, "__objRest(") {
+		return ""
+	}
+	po, err := jsref.Parse(out, jsref.Options{})
+	if err != nil {
+		return ""
+	}
+	bound := map[string]int{}
+	usedAsInit := map[string]bool{}
+	var walk func(n *jsref.Node)
+	walk = func(n *jsref.Node) {
+		if n == nil {
+			return
+		}
+		switch n.Type {
+		case jsref.NFunctionDecl, jsref.NFunctionExpr, jsref.NArrow, jsref.NClassDecl, jsref.NClassExpr:
+			return
+		case jsref.NDeclarator:
+			bindingNames(n.A, func(name string) { bound[name]++ })
+			if n.B != nil && n.B.Type == jsref.NIdent {
+				usedAsInit[n.B.Name] = true
+			}
+		case jsref.NCatch:
+			bindingNames(n.A, func(name string) { bound[name]++ })
+		}
+		walk(n.A)
+		walk(n.B)
+		walk(n.C)
+		walk(n.D)
+		for _, ch := range n.List {
+			walk(ch)
+		}
+	}
+	walk(po.Body)
+	inInput := map[string]bool{}
+	if toks, err := jsref.Tokenize(c.Code, jsref.Options{}); err == nil {
+		for _, t := range toks {
+			if t.Kind == jsref.TIdent {
+				inInput[t.Ident] = true
+			}
+		}
+	}
+	collides := false
+	for name, n := range bound {
+		if isRawTemporaryName(name) && usedAsInit[name] && (n >= 2 || inInput[name]) {
+			collides = true
+		}
+	}
+	if !collides {
+		return ""
+	}
+	o := c.options()
+	o.MinifyIdentifiers = true
+	r := api.Transform(c.Code, o)
+	if len(r.Errors) > 0 {
+		return ""
+	}
+	if got, err := W.Script(string(r.Code), false); err == nil && got.Trace() == refTrace {
+		return id
+	}
+	return ""
+}
+
+// ---- C05-private-static-field-assigned-outside-class (confirmed by transforming again)
+// With `class-private-brand-check` unsupported and static private fields supported (`supported:
+// {class-private-brand-check: false}`, node 12–16.3, chrome 84–90), a class that contains a brand check
+// `#a in o` and declares a static private field is emitted with `static #d;` left in the class body and
+// the initialisation `A.#d = v` AFTER the class body, where `#d` is not in scope: a SyntaxError in every
+// engine (also listed as C14-private-static-field-assigned-outside-class). visitClass decides that every
+// private member must be lowered when static fields are moved out of the class before the brand check
+// has switched that mode on.
+// Signature: the configuration lowers brand checks but not static private fields; a class of the input has
+// both; V8 rejects the output; the output assigns to private names that no enclosing class declares
+// (`X.#n = v`) and mentions undeclared private names nowhere else. Confirmation: with every private
+// feature lowered — what esbuild does once that decision is taken in the right order — the same program is
+// lowered correctly (or fails only by other listed findings).
+var privateFeatures = []string{"class-private-accessor", "class-private-brand-check", "class-private-field", "class-private-method", "class-private-static-accessor", "class-private-static-field", "class-private-static-method"}
+
+func classWithBrandCheckAndStaticPrivateField(pi *jsref.Program) bool {
+	found := false
+	jsutil.Walk(pi.Body, func(n *jsref.Node) {
+		if !isClass(n) || found {
+			return
+		}
+		field, brand := false, false
+		for _, m := range n.List {
+			if m != nil && m.Type == jsref.NField && m.Has(jsref.FlagStatic) && !m.Has(jsref.FlagComputed) && m.A != nil && m.A.Type == jsref.NPrivateName {
+				field = true
+			}
+		}
+		jsutil.Walk(n, func(m *jsref.Node) {
+			if m.Type == jsref.NBinary && m.Name == "in" && m.A != nil && m.A.Type == jsref.NPrivateName {
+				brand = true
+			}
+		})
+		if field && brand {
+			found = true
+		}
+	})
+	return found
+}
+
+// undeclaredPrivateAssignments counts the assignments `X.#n = v` of the program whose private name is not
+// declared by an enclosing class body, and reports whether these targets are the only uses of undeclared
+// private names.
+func undeclaredPrivateAssignments(p *jsref.Program) (count int, onlyThose bool) {
+	forgiven := map[*jsref.Node]bool{}
+	var declared []map[string]bool
+	isDeclared := func(name string) bool {
+		for _, d := range declared {
+			if d[name] {
+				return true
+			}
+		}
+		return false
+	}
+	onlyThose = true
+	var walk func(n *jsref.Node)
+	walk = func(n *jsref.Node) {
+		if n == nil {
+			return
+		}
+		switch n.Type {
+		case jsref.NClassDecl, jsref.NClassExpr:
+			walk(n.A)
+			walk(n.B) // the heritage is outside the class's private scope
+			names := map[string]bool{}
+			for _, m := range n.List {
+				if m != nil && (m.Type == jsref.NMethod || m.Type == jsref.NField) && !m.Has(jsref.FlagComputed) && m.A != nil && m.A.Type == jsref.NPrivateName {
+					names[m.A.Name] = true
+				}
+			}
+			declared = append(declared, names)
+			for _, m := range n.List {
+				walk(m)
+			}
+			declared = declared[:len(declared)-1]
+			return
+		case jsref.NAssign:
+			if n.Name == "=" && n.A != nil && n.A.Type == jsref.NMember && n.A.B != nil && n.A.B.Type == jsref.NPrivateName && !isDeclared(n.A.B.Name) {
+				count++
+				forgiven[n.A.B] = true
+			}
+		case jsref.NPrivateName:
+			if !isDeclared(n.Name) && !forgiven[n] {
+				onlyThose = false
+			}
+		}
+		walk(n.A)
+		walk(n.B)
+		walk(n.C)
+		walk(n.D)
+		for _, c := range n.List {
+			walk(c)
+		}
+	}
+	walk(p.Body)
+	return
+}
+
+func privateStaticFieldOutsideClass(c Case, out string, gotTrace string, depth int) string {
+	const id = "C05-private-static-field-assigned-outside-class"
+	if !strings.HasPrefix(gotTrace, "PARSE-ERROR") || !c.lowers("class-private-brand-check", 2022) || c.lowers("class-private-static-field", 2022) {
+		return ""
+	}
+	pi, err := jsref.Parse(c.Code, jsref.Options{})
+	if err != nil || !classWithBrandCheckAndStaticPrivateField(pi) {
+		return ""
+	}
+	po, err := jsref.Parse(out, jsref.Options{})
+	if err != nil {
+		return ""
+	}
+	if n, only := undeclaredPrivateAssignments(po); n == 0 || !only {
+		return ""
+	}
+	c2 := c
+	c2.Unsupported = append([]string{}, c.Unsupported...)
+	c2.Supported = nil
+	for _, f := range c.Supported {
+		if !strings.HasPrefix(f, "class-private-") {
+			c2.Supported = append(c2.Supported, f)
+		}
+	}
+	for _, f := range privateFeatures {
+		if knownFeature(f) && !c2.lowers(f, 0) {
+			c2.Unsupported = append(c2.Unsupported, f)
+		}
+	}
+	v2, confirmed2 := judgeInner(c2, depth+1)
+	if debugClassify {
+		fmt.Printf("classify depth=%d all-private-lowered -> ok=%v known=%q confirmed=%v discard=%q\n", depth, v2.OK, v2.Known, confirmed2, v2.Discard)
+	}
+	if v2.Discard != "" {
+		return ""
+	}
+	for _, cl := range v2.Classes {
+		if strings.HasPrefix(cl, "esbuild-refused") {
+			return ""
+		}
+	}
+	if v2.OK || (v2.Known != "" && confirmed2 && !isFixedID(v2.Known)) {
+		return id
+	}
+	return ""
+}
+
+func isFixedID(id string) bool {
+	for _, f := range outputRepairs {
+		if f.id == id && f.fixed != "" {
+			return true
+		}
+	}
+	for _, f := range inputRewrites {
+		if f.id == id && f.fixed != "" {
+			return true
+		}
+	}
+	return false
+}
+
 type outputRepair struct {
 	id        string
 	signature func(pi *jsref.Program) bool
 	repair    func(out string, po *jsref.Program) (string, int)
 	outputTag string // text the output must contain for the finding to be possible at all
+	fixed     string // commit that repaired the finding in esbuild ("" = still listed as known)
 }
 
 type inputRewrite struct {
 	id      string
 	rewrite func(code string, pi *jsref.Program) (string, int)
+	fixed   string
 }
 
+// Findings that are still listed as "known" come first. The matchers of findings that have been repaired
+// in esbuild since (status "fixed": their id no longer excuses a failure, a match reports a regression)
+// are kept, but they are consulted only after every known finding has been tried without them, so that a
+// stale matcher never takes the place of one that applies.
 var outputRepairs = []outputRepair{
-	{"C05-static-initialiser-super-call-receiver", superCallInStaticInit, repairSuperCallReceiver, "__superGet("},
-	{"C05-object-rest-identifier-key-reread", restWithIdentKey, repairRestKeyReread, "__restKey("},
-	{"C05-lowered-async-arrow-loses-this-of-lowered-super", superInAsyncArrow, repairAsyncArrowThis, "__async(null"},
-	{"C05-object-rest-only-target-evaluated-before-source", restOnlyMemberTarget, repairRestOnlyOrder, "__objRest("},
-	{"C05-async-generator-return-restarts-after-await", asyncGeneratorAwaitAndReturnCall, repairAsyncGeneratorReturn, "__asyncGenerator"},
+	{id: "C05-static-initialiser-super-call-receiver", signature: superCallInStaticInit, repair: repairSuperCallReceiver, outputTag: "__superGet("},
+	{id: "C05-lowered-async-arrow-loses-this-of-lowered-super", signature: superInAsyncArrow, repair: repairAsyncArrowThis, outputTag: "__async(null"},
+	{id: "C05-object-rest-only-target-evaluated-before-source", signature: restOnlyMemberTarget, repair: repairRestOnlyOrder, outputTag: "__objRest("},
+	{id: "C05-objrest-nullish-or-order", signature: complexObjectRest, repair: repairObjRestNullish, outputTag: "__objRest"},
+	{id: "C05-object-rest-own-proto-key-sets-prototype", signature: mentionsProto, repair: repairObjRestDefine, outputTag: "__objRest"},
+	{id: "C05-object-rest-identifier-key-reread", signature: restWithIdentKey, repair: repairRestKeyReread, outputTag: "__restKey(", fixed: "01d698b"},
+	{id: "C05-async-generator-return-restarts-after-await", signature: asyncGeneratorAwaitAndReturnCall, repair: repairAsyncGeneratorReturn, outputTag: "__asyncGenerator", fixed: "482b817"},
 }
 
 var inputRewrites = []inputRewrite{
-	{"C05-class-temporaries-shared-across-loop-iterations", rewriteClassesInLoops},
-	{"C05-raw-super-outside-method", rewriteSuperShortCircuit},
-	{"C05-new-target-in-lowered-static-block", rewriteNewTargetInStaticInit},
-	{"C05-private-name-as-for-in-of-target", rewritePrivateLoopTargets},
-	{"C05-class-code-moved-out-loses-strict-mode", rewriteUseStrict},
+	{id: "C05-class-temporaries-shared-across-loop-iterations", rewrite: rewriteClassesInLoops},
+	{id: "C05-raw-super-outside-method", rewrite: rewriteSuperShortCircuit},
+	{id: "C05-private-name-as-for-in-of-target", rewrite: rewritePrivateLoopTargets},
+	{id: "C05-class-code-moved-out-loses-strict-mode", rewrite: rewriteUseStrict},
+	{id: "C05-new-target-in-lowered-static-block", rewrite: rewriteNewTargetInStaticInit, fixed: "884aa3b"},
 }
 
 const maxRewriteDepth = 4
 
 var debugClassify = os.Getenv("VERIF_C05_DEBUG") != ""
 
-// repairOutput applies every output repair whose signature matches; applied lists the findings whose
-// repair changed something.
-func repairOutput(c Case, out string) (repaired string, applied []string) {
+// repairOutput applies every output repair whose signature matches (those of findings repaired in esbuild
+// since only when includeFixed is set; only the repair of one finding when `only` names it); applied lists
+// the findings whose repair changed something.
+func repairOutput(c Case, out string, includeFixed bool, only string) (repaired string, applied []string) {
 	pi, err := jsref.Parse(c.Code, jsref.Options{})
 	if err != nil {
 		return out, nil
 	}
 	cur := out
 	for _, f := range outputRepairs {
-		if !strings.Contains(cur, f.outputTag) || !f.signature(pi) {
+		if (f.fixed != "" && !includeFixed) || (only != "" && f.id != only) || !strings.Contains(cur, f.outputTag) || !f.signature(pi) {
 			continue
 		}
 		po, err := jsref.Parse(cur, jsref.Options{})
@@ -819,26 +1180,65 @@ func classify(c Case, out string, refTrace, gotTrace string, depth int) string {
 	// 1. output repairs (all applicable ones together: each is the identity on correct output). They
 	// recognise esbuild's helpers by name, so a case with minified identifiers is first re-transformed
 	// without identifier minification; that output must fail in exactly the same way.
+	named := out
 	if c.Minify {
 		o := c.options()
 		o.MinifyIdentifiers = false
 		r := api.Transform(c.Code, o)
-		out = ""
+		named = ""
 		if len(r.Errors) == 0 {
 			if got, err := W.Script(string(r.Code), false); err == nil && got.Trace() == gotTrace {
-				out = string(r.Code)
+				named = string(r.Code)
 			}
 		}
 	}
-	if repaired, applied := repairOutput(c, out); out != "" && len(applied) > 0 {
-		if got, err := W.Script(repaired, false); err == nil && got.Trace() == refTrace {
-			return applied[0]
+	tryRepairs := func(includeFixed bool) string {
+		if named == "" {
+			return ""
 		}
+		repaired, applied := repairOutput(c, named, includeFixed, "")
+		if len(applied) == 0 {
+			return ""
+		}
+		got, err := W.Script(repaired, false)
+		if err != nil || got.Trace() != refTrace {
+			return ""
+		}
+		// attribution: a single repair that suffices on its own names the finding (some repairs, like the
+		// stricter __objRest helper, change the text of every output that contains the helper)
+		if len(applied) > 1 {
+			for _, id := range applied {
+				if one, a := repairOutput(c, named, includeFixed, id); len(a) == 1 {
+					if got, err := W.Script(one, false); err == nil && got.Trace() == refTrace {
+						return id
+					}
+				}
+			}
+		}
+		if includeFixed {
+			// the repairs of the known findings alone did not suffice: blame a repaired finding
+			for _, id := range applied {
+				if isFixedID(id) {
+					return id
+				}
+			}
+		}
+		return applied[0]
+	}
+	if id := tryRepairs(false); id != "" {
+		return id
+	}
+	// 2. findings confirmed by transforming again under a changed configuration
+	if id := topLevelRestTemporaryCollision(c, out, refTrace); id != "" {
+		return id
 	}
 	if depth >= maxRewriteDepth {
 		return ""
 	}
-	// 2. input rewrites, one at a time; the rewritten program is judged recursively, so several findings
+	if id := privateStaticFieldOutsideClass(c, out, gotTrace, depth); id != "" {
+		return id
+	}
+	// 3. input rewrites, one at a time; the rewritten program is judged recursively, so several findings
 	// in one program are peeled off one after the other
 	pi, err := jsref.Parse(c.Code, jsref.Options{})
 	if err != nil {
@@ -846,6 +1246,9 @@ func classify(c Case, out string, refTrace, gotTrace string, depth int) string {
 	}
 	fallback := ""
 	for _, f := range inputRewrites {
+		if f.fixed != "" && fallback != "" {
+			break // explained by known findings; the stale matchers are not consulted
+		}
 		code2, n := f.rewrite(c.Code, pi)
 		if n == 0 || code2 == c.Code {
 			continue
@@ -878,14 +1281,18 @@ func classify(c Case, out string, refTrace, gotTrace string, depth int) string {
 		// Still failing, but the rest is explained by other listed findings THROUGH repairs / rewrites that end
 		// in a correct program (a static-signature match of the rest does not count: this rewrite may have
 		// been without effect). Prefer a rewrite that changed the observed behaviour.
-		if v2.Known != "" && confirmed2 {
+		if v2.Known != "" && confirmed2 && !isFixedID(v2.Known) {
 			if !strings.HasPrefix(v2.Observed, gotTrace+"\n--- output") {
 				return f.id
 			}
-			if fallback == "" {
+			if fallback == "" && f.fixed == "" {
 				fallback = f.id
 			}
 		}
 	}
-	return fallback
+	if fallback != "" {
+		return fallback
+	}
+	// 4. the output repairs of findings that were repaired in esbuild (a match is a regression)
+	return tryRepairs(true)
 }
